@@ -328,13 +328,17 @@ class Ctx:
         self.notes.append(s)
 
 
-_ERR_RX = re.compile(r"\berr[ :]+[A-Za-z_][\w.]*")
+# 'err <Class> <free text of the message>' -> 'err'; key=value tokens and the separators | ; end the erased part (they carry state)
+_ERR_RX = re.compile(r"\berr[ :]+[A-Za-z_][\w.]*(?:[ ,:]+(?![^\s|;=]+=)[^\s|;]+)*")
+
+
+_RAISE_RX = re.compile(r"\braise:(?!crash\b)[A-Za-z_]\w*(?:\([^)]*\))?")     # C04's tokens: raise:assertion / raise:valueError / raise:X(msg)
 
 
 def canon_err(x):
     """erase the exception class from a canonical outcome: 'err IndexError' -> 'err' (recursively in containers)"""
     if isinstance(x, str):
-        return _ERR_RX.sub('err', x)
+        return _RAISE_RX.sub('raise', _ERR_RX.sub('err', x))
     if isinstance(x, (list, tuple)):
         return [canon_err(v) for v in x]
     if isinstance(x, dict):
